@@ -865,6 +865,25 @@ def rule_q_sibling_writers_exam_info(ctx, image_writer, pdfs_writer):
     return n
 
 
+def rule_r_seek_on_every_access(ctx, fns):
+    """`written values are visible to an independent reader as soon as each write call returns`: the reader's std::filebuf reads ahead,
+    and it is the seek that makes it drop what it has buffered.  So the positioning helpers seek on EVERY call - a path that returns
+    without seekg/seekp (`already there`) serves the next read from a stale copy of the file (seed C02-6)."""
+    RULE = "C02.r-reposition-on-every-access"
+    n = 0
+    seen = set()
+    for f in fns:
+        if not f.short.startswith("checked_seek") or f.body is None or not f.cfg_raw or (f.file, f.body.line) in seen:
+            continue
+        seen.add((f.file, f.body.line))
+        cfg = CFG(f)
+        seeks = {c.i for c in f.calls() if (c.callee or "").split("::")[-1] in ("seekg", "seekp") and c.i in cfg.pos}
+        ok = bool(seeks) and cfg.paths_avoiding([(cfg.entry, -1)], lambda x, s_=seeks: x.i in s_) is None
+        ctx.ob(RULE, f.qn, "seek-on-every-path", ok, f.where(), "every normal return has passed seekg/seekp" if ok else "a path returns without seeking: the stream keeps its read-ahead buffer, and an independent reader whose next read starts where its previous one ended is served values from before the other object's write")
+        n += 1
+    return n
+
+
 def run(ctx):
     ctx.explanation = (
         "Decides structural necessary conditions of C02 from the source: (a) all five bin coordinates are range-checked "
@@ -905,6 +924,8 @@ def run(ctx):
             continue
         rule_b_tof_stride_def(ctx, fns[0], with_elem)
     rule_c_single_address_map(ctx, pdfs, pdim)
+    rule_r_seek_on_every_access(ctx, pdfs.functions)
+    ctx.require_count("C02.r-reposition-on-every-access", 2)
     rule_p_segment_checked_on_entry(ctx, [(pdfs, "stir::ProjDataFromStream", pdfs_local), (pdim, "stir::ProjDataInMemory", pdim_local)])
     ctx.require_count("C02.p-segment-checked-before-table-lookup", 7)
     rule_k_address_names_the_piece(ctx, [(pdfs, "stir::ProjDataFromStream", "stir::ProjDataFromStream::get_offset"), (pdim, "stir::ProjDataInMemory", "stir::ProjDataInMemory::get_index")])
